@@ -567,3 +567,94 @@ def replay(rep):  # noqa: F811
         print('replay: %s' % ('not reproduced' if ok else 'violation reproduced on the real code'))
         return 0 if ok else 1
     return _rp4(rep)
+
+
+# ---------------------------------------------------------------------------
+# Name resolution (C07): names with several readings, with the reading the property dictates
+_LOOKUP_DEFS = 'icrofoo 3 m\nfoo 5 s\nglas 3 m\nkfoo 7 m\n'
+_LOOKUP_CASES = [
+    ('dat / (deci at)', 'RAW 1/1 | '), ('dau / (deci au)', 'RAW 1/1 | '), ('dasb / (deci asb)', 'RAW 1/1 | '),
+    ('microfoo / (milli icrofoo)', 'RAW 1/1 | '), ('kfoo / (7 m)', 'RAW 1/1 | '), ('kfoos / (7 m)', 'RAW 1/1 | '),
+    ('meterss', 'ERR'), ('kmss', 'ERR'), ('3 hourss', 'ERR'), ('glasss', 'ERR'), ('glass / glas', 'RAW 1/1 | '),
+    ('ks / kilosecond', 'RAW 1/1 | '), ('pcs / pc', 'RAW 1/1 | '), ('hands / hand', 'RAW 1/1 | '), ('mm / (milli m)', 'RAW 1/1 | '),
+    ('1 at -> dat', '10 decitechnicalatmosphere (pressure)'), ('1 micron -> mm', '0.001 millimeter (length)'),
+    ('dam / (deca m)', 'RAW 1/1 | '), ('min / (60 s)', 'RAW 1/1 | '), ('1 m', '1 meter (length)'),
+]
+_LOOKUP_SUBST = ('widget {\n    mass const widget_mass 3 kg\n    weight const widget_weight mass gravity\n}\n', 'weight of widget', 'RAW 588399/20000 | kg:1,m:1,s:-2')
+
+
+def _lookup_witness():
+    if build_core() != 0:
+        return None
+    def judge(text, raw, want):
+        if text.startswith('PANIC') or text.startswith('TIMEOUT'):
+            return False
+        if want.startswith('RAW '):
+            return raw is not None and _norm_raw(raw) == _norm_raw(want[4:])
+        if want == 'ERR':
+            return text.startswith('ERR')
+        return bool(text) and text.splitlines()[0].startswith(want)
+    for q, want in _LOOKUP_CASES:
+        rc, so, se, dt = run([QUERY_BIN, '--defs', _LOOKUP_DEFS, q], timeout=20)
+        body = so.split('> ' + q, 1)[1].strip() if ('> ' + q) in so else so
+        raw = None
+        for l in body.splitlines():
+            if l.startswith('RAW '):
+                raw = l[4:]
+        if not judge(body, raw, want):
+            return {'replayer': 'lookup', 'input': {'defs': _LOOKUP_DEFS, 'query': q, 'expected': want}, 'output': body, 'why': 'expected %r, got %r' % (want, (body.splitlines() or [''])[0] + (' / RAW ' + raw if raw else '')),
+                    'cmd': '%s --defs %r %r' % (QUERY_BIN, _LOOKUP_DEFS, q)}
+    defs, q, want = _LOOKUP_SUBST
+    rc, so, se, dt = run([QUERY_BIN, '--defs', defs, q], timeout=20)
+    body = so.split('> ' + q, 1)[1].strip() if ('> ' + q) in so else so
+    raw = None
+    for l in body.splitlines():
+        if l.startswith('RAW '):
+            raw = l[4:]
+    if not judge(body, raw, want):
+        return {'replayer': 'lookup', 'input': {'defs': defs, 'query': q, 'expected': want}, 'output': body, 'why': 'expected %r, got %r' % (want, (body.splitlines() or [''])[0]), 'cmd': '%s --defs %r %r' % (QUERY_BIN, defs, q)}
+    return None
+
+
+_sf4 = search_family
+
+
+def search_family(fam, prop):  # noqa: F811
+    if fam == 'lookup':
+        return _lookup_witness()
+    return _sf4(fam, prop)
+
+
+_fw5 = find_witness
+
+
+def find_witness(o, rep):  # noqa: F811
+    if o.get('unit') == 'lookup':
+        w = _lookup_witness()
+        if w:
+            return w
+    return _fw5(o, rep)
+
+
+_rp5 = replay
+
+
+def replay(rep):  # noqa: F811
+    w = rep.get('replay') or {}
+    if w.get('replayer') == 'lookup':
+        if build_core() != 0:
+            return 0
+        i = rep['input']
+        rc, so, se, dt = run([QUERY_BIN, '--defs', i['defs'], i['query']], timeout=20)
+        print(so)
+        print('expected: %r' % i['expected'])
+        body = so.split('> ' + i['query'], 1)[1].strip() if ('> ' + i['query']) in so else so
+        raw = None
+        for l in body.splitlines():
+            if l.startswith('RAW '):
+                raw = l[4:]
+        want = i['expected']
+        ok = (raw is not None and _norm_raw(raw) == _norm_raw(want[4:])) if want.startswith('RAW ') else (body.startswith('ERR') if want == 'ERR' else body.splitlines()[0].startswith(want))
+        print('replay: %s' % ('not reproduced' if ok else 'violation reproduced on the real code'))
+        return 0 if ok else 1
+    return _rp5(rep)
